@@ -313,7 +313,8 @@ const PRIMS: &[&str] = &[
     "call-with-absolute-path", "dirname", "basename", "streq?", "streq-ci?", "fnmatch?", "fnmatch-ci?", "round-up-power-of-2", "make-printer",
     "print-relative-path", "print-absolute-path", "print-file-fid", "lipe-scan", "lipe-scan-break", "lipe-getopt-client-mount-path",
     "lipe-getopt-required-attrs", "lipe-getopt-thread-count", "lipe-scan-client-mount-path", "empty", "readable", "writable", "executable",
-    "lock-mutex", "unlock-mutex", "list", "force-output",
+    "lock-mutex", "unlock-mutex", "list", "force-output", "put-u8", "put-char", "put-string", "write-char", "write-string", "integer->char", "char->integer",
+    "simple-format",
 ];
 
 fn prim_name(name: &str) -> Option<&'static str> {
@@ -755,6 +756,56 @@ impl Interp {
                 Ok(V::Unspec)
             }
             "force-output" => Ok(V::Unspec),
+            "put-u8" | "put-char" | "put-string" => {
+                // (put-u8 port byte) (put-char port char) (put-string port string): R6RS argument order
+                Self::arity(name, a, 2, 2)?;
+                let p = match &a[0] {
+                    V::Port(p) => *p,
+                    other => return Err(EvalError::Type(format!("{}: not a port: {}", name, display_string(other)))),
+                };
+                let text = match (name, &a[1]) {
+                    ("put-u8", V::Int(b)) if *b >= 0 && *b < 256 => char::from_u32(*b as u32).unwrap().to_string(),
+                    ("put-char", V::Char(c)) => c.to_string(),
+                    ("put-string", V::Str(st)) => st.to_string(),
+                    (_, other) => return Err(EvalError::Type(format!("{}: bad datum {}", name, display_string(other)))),
+                };
+                self.w.write(p, &text)?;
+                Ok(V::Unspec)
+            }
+            "write-char" | "write-string" => {
+                Self::arity(name, a, 1, 2)?;
+                let p = if a.len() == 2 {
+                    match &a[1] {
+                        V::Port(p) => *p,
+                        other => return Err(EvalError::Type(format!("{}: not a port: {}", name, display_string(other)))),
+                    }
+                } else {
+                    0
+                };
+                let text = match (name, &a[0]) {
+                    ("write-char", V::Char(c)) => c.to_string(),
+                    ("write-string", V::Str(st)) => st.to_string(),
+                    (_, other) => return Err(EvalError::Type(format!("{}: bad datum {}", name, display_string(other)))),
+                };
+                self.w.write(p, &text)?;
+                Ok(V::Unspec)
+            }
+            "integer->char" => {
+                Self::arity(name, a, 1, 1)?;
+                let i = Self::int(&a[0], name)?;
+                match u32::try_from(i).ok().and_then(char::from_u32) {
+                    Some(c) => Ok(V::Char(c)),
+                    None => Err(EvalError::Type("integer->char: out of range".into())),
+                }
+            }
+            "char->integer" => {
+                Self::arity(name, a, 1, 1)?;
+                match &a[0] {
+                    V::Char(c) => Ok(V::Int(*c as i128)),
+                    other => Err(EvalError::Type(format!("char->integer: not a char: {}", display_string(other)))),
+                }
+            }
+            "simple-format" => self.format(a),
             "string" => {
                 let mut out = String::new();
                 for v in a {
